@@ -43,3 +43,10 @@ MUTANTS += [
        "        prstDash = self.prstDash or self.custDash\n        if prstDash is None:\n            return None\n        return prstDash.val")],
      "R9.5 CT_LineProperties.prstDash_val"),
 ]
+
+MUTANTS += [
+    ("rel-reuse-case-folded", "an external relationship is reused for a target that differs in letter case",
+     [("src/pptx/opc/package.py", "            if rel_target == target:\n                return rel.rId",
+       "            if (rel_target.lower() == target.lower()) if rel.is_external else (rel_target == target):\n                return rel.rId")],
+     "R9.6 _Relationships._get_matching"),
+]
